@@ -157,8 +157,8 @@ def main(tier, seed):
                     plist.append(dict(fmt=fmt, history=[[ord(c) for c in a], [ord(c) for c in b], [ord(c) for c in fr['sentence']]]))
         R.run_query(Query('multi/' + fmt, 'c08', 'path_multi', plist, 'histories [s1,s2]: s1 = each of %d fragment kinds with one arbitrary char at %s position, s2 = %d complete inputs' % (len(fr), 'every' if not quick else '3', len(seconds))), confirm, key_of)
         n = 1 if quick else 2
-        plist = [dict(fmt=fmt, history=[[None] * k, [None] * j]) for k in range(0, n + 1) for j in range(1, n + 1)]
-        R.run_query(Query('multi-short/' + fmt, 'c08', 'path_multi', plist, 'all histories [s1,s2] with |s1| <= %d, |s2| <= %d over all Unicode' % (n, n)), confirm, key_of)
+        plist = [dict(fmt=fmt, history=[[None] * k, [None] * j]) for k in range(0, n + 1) for j in range(1, n + 1) if k + j <= (2 if quick else 3)]
+        R.run_query(Query('multi-short/' + fmt, 'c08', 'path_multi', plist, 'all histories [s1,s2] with |s1| <= %d, 1 <= |s2| <= %d, |s1|+|s2| <= %d over all Unicode' % (n, n, 2 if quick else 3)), confirm, key_of)
         plist = [dict(fmt=fmt, template=[None] * k) for k in range(0, 3 if quick else 4)]
         R.run_query(Query('chars/' + fmt, 'c08', 'path_chars', plist, 'parse vs parse_chars vs repeated parse, all strings of <= %d chars' % (2 if quick else 3)), confirm, key_of)
         lp = [dict(fmt=fmt, history=[[ord(c) for c in fr['budget-only']] + [None], [ord(c) for c in fr['sentence']]]),
